@@ -139,29 +139,29 @@ const maxHashes = 1 << 21
 
 // Partial is the per-process evidence fragment read by the driver.
 type Partial struct {
-	Property    string         `json:"property"`
-	Unit        string         `json:"unit"`
-	Shard       int            `json:"shard"`
-	Tier        string         `json:"tier"`
-	Seed        uint64         `json:"seed"`
-	Rule        string         `json:"rule"`
-	Evaluations int64          `json:"evaluations"`
-	Cases       int64          `json:"cases"`
-	NonTrivial  int64          `json:"nontrivial_cases"`
-	Distinct    int64          `json:"distinct_nontrivial_local"`
-	ByConstr    int64          `json:"distinct_by_construction"`
-	Saturated   bool           `json:"hashset_saturated"`
-	Skipped     int64          `json:"skipped_excluded"`
-	Labels      map[string]int `json:"labels"`
-	Samples     []any          `json:"samples"`
-	Exhaustive  bool           `json:"exhaustive"`
-	Requested   int            `json:"requested"`
-	Completed   bool           `json:"completed"`
-	Violations  int            `json:"violations"`
+	Property    string              `json:"property"`
+	Unit        string              `json:"unit"`
+	Shard       int                 `json:"shard"`
+	Tier        string              `json:"tier"`
+	Seed        uint64              `json:"seed"`
+	Rule        string              `json:"rule"`
+	Evaluations int64               `json:"evaluations"`
+	Cases       int64               `json:"cases"`
+	NonTrivial  int64               `json:"nontrivial_cases"`
+	Distinct    int64               `json:"distinct_nontrivial_local"`
+	ByConstr    int64               `json:"distinct_by_construction"`
+	Saturated   bool                `json:"hashset_saturated"`
+	Skipped     int64               `json:"skipped_excluded"`
+	Labels      map[string]int      `json:"labels"`
+	Samples     []any               `json:"samples"`
+	Exhaustive  bool                `json:"exhaustive"`
+	Requested   int                 `json:"requested"`
+	Completed   bool                `json:"completed"`
+	Violations  int                 `json:"violations"`
 	Known       map[string]KnownHit `json:"known"`
-	Assumes     []string       `json:"assumes"`
-	WallS       float64        `json:"wall_s"`
-	HashFile    string         `json:"hash_file"`
+	Assumes     []string            `json:"assumes"`
+	WallS       float64             `json:"wall_s"`
+	HashFile    string              `json:"hash_file"`
 }
 
 type KnownHit struct {
@@ -477,7 +477,10 @@ func Check[C any](t *testing.T, s *Spec[C]) {
 			c := s.Gen(rt)
 			out := r.one(c)
 			if out.Violation != "" {
-				rt.Fatalf("VIOLATION in %s: %s", s.Name, firstLine(out.Violation))
+				// constant text: rapid only accepts a shrink candidate whose error string is
+				// identical, so details (which change while shrinking) go to the log and the fail file
+				rt.Logf("%s", firstLine(out.Violation))
+				rt.Fatalf("VIOLATION in %s", s.Name)
 			}
 		})
 		if !t.Failed() && r.p.Cases-before < int64(n) {
